@@ -45,6 +45,13 @@ structure Frame (s s' : St) : Prop where
 
 theorem Frame.rfl' (s : St) : Frame s s := ⟨rfl, rfl, rfl, rfl, rfl, rfl⟩
 
+/-- the values of the LESC key exchange stay as they are -/
+structure LescKeep (s s' : St) : Prop where
+  remotePub  : s'.remotePub = s.remotePub
+  localPriv  : s'.localPriv = s.localPriv
+  localPub   : s'.localPub = s.localPub
+  localNonce : s'.localNonce = s.localNonce
+
 theorem fail_failedIdle (s : St) (c : UInt8) (d : Option Nat) : FailedIdle (fail s c d) :=
   ⟨⟨c, rfl⟩, rfl⟩
 
@@ -78,11 +85,12 @@ inductive InputSpec (C : Crypto) (cfg : Cfg) (s : St) (p : Bytes) : HRes → Pro
       InputSpec C cfg s p r
   | publicKey (r : HRes) : AcceptedAt C cfg.variant s.st p r.1.st → p.head? = some 0x0c → s.st = .lescRequested →
       r.1.st = .lescKeysExchanged → r.2.1 = 0x0c :: r.1.localPub → r.1.remotePub = p.drop 1 →
+      r.1.localPub = (C.keys s.rng).1 → r.1.localPriv = (C.keys s.rng).2 →
       Frame s r.1 → InputSpec C cfg s p r
   | lescRandom (r : HRes) : AcceptedAt C cfg.variant s.st p r.1.st → p.head? = some 0x04 → s.st = .lescConfirmSend →
       r.2.1 = 0x04 :: r.1.localNonce → r.1.remoteNonce = p.drop 1 →
       (r.1.st ≠ .lescRandomExchanged → s.lescAlgo = .numericComparison ∧ cfg.input = .yesNo) →
-      Frame s r.1 → InputSpec C cfg s p r
+      LescKeep s r.1 → Frame s r.1 → InputSpec C cfg s p r
   | dhkeyCheck (r : HRes) : AcceptedAt C cfg.variant s.st p r.1.st → p.head? = some 0x0d →
       (s.st = .lescRandomExchanged ∨ s.st = .userSuccess) → r.1.st = .completed →
       r.2.1 = 0x0d :: lescEb C cfg s → lescEa C cfg s = p.drop 1 →
@@ -91,8 +99,8 @@ inductive InputSpec (C : Crypto) (cfg : Cfg) (s : St) (p : Bytes) : HRes → Pro
       r.1.pendKey = s.pendKey → r.1.lescAlgo = s.lescAlgo →
       r.1.bonds = (if cfg.bonding then (⟨(lescKeys C cfg s).2, 0, 0⟩, cfg.remoteAddr) :: s.bonds else s.bonds) →
       InputSpec C cfg s p r
-  | dhkeyDeferred (r : HRes) : AcceptedAt C cfg.variant s.st p r.1.st → p.head? = some 0x0d → s.st = .userWait →
-      r.1 = s → r.2.1 = [] → InputSpec C cfg s p r
+  | dhkeyVerified (r : HRes) : AcceptedAt C cfg.variant s.st p r.1.st → p.head? = some 0x0d → s.st = .userWait →
+      lescEa C cfg s = p.drop 1 → r.1 = { s with st := .userWaitVerified } → r.2.1 = [] → InputSpec C cfg s p r
 
 theorem length7 {α} (p : List α) (a b c d e f g : α) (h : p = [a, b, c, d, e, f, g]) : p.length = 7 := by
   subst h; rfl
@@ -253,19 +261,19 @@ theorem lescPublicKey_spec (C : Crypto) (cfg : Cfg) (s : St) (p : Bytes) (hv : c
       · exact .failed _ (fail_failedIdle ..) (fail_frame ..)
       · rename_i hk
         have hst' : s.st = .lescRequested := by simpa using hst
-        refine .publicKey _ ?_ hp hst' rfl rfl rfl ⟨rfl, rfl, rfl, rfl, rfl, rfl⟩
+        refine .publicKey _ ?_ hp hst' rfl rfl rfl rfl rfl ⟨rfl, rfl, rfl, rfl, rfl, rfl⟩
         rw [hst']
         exact .publicKey _ hv hp (by simpa using hlen) (by simpa using hk)
 
 theorem requestYesNo_spec (cfg : Cfg) (s : St) :
     let s' := requestYesNo cfg s
-    (s'.st = s.st ∨ (cfg.input = .yesNo ∧ (s'.st = .userWait ∨ s'.st = .userSuccess ∨ s'.st = .userFailed))) ∧
-    s'.localNonce = s.localNonce ∧ s'.remoteNonce = s.remoteNonce ∧ Frame s s' := by
+    (s'.st = s.st ∨ (cfg.input = .yesNo ∧ (s'.st = .userWait ∨ s'.st = .lescRandomExchanged ∨ s'.st = .userFailed))) ∧
+    s'.localNonce = s.localNonce ∧ s'.remoteNonce = s.remoteNonce ∧ LescKeep s s' ∧ Frame s s' := by
   unfold requestYesNo
   split
   · rename_i hi
-    split <;> exact ⟨Or.inr ⟨hi, by simp⟩, rfl, rfl, rfl, rfl, rfl, rfl, rfl, rfl⟩
-  · exact ⟨Or.inl rfl, rfl, rfl, Frame.rfl' s⟩
+    split <;> exact ⟨Or.inr ⟨hi, by simp [yesNoResponse]⟩, rfl, rfl, ⟨rfl, rfl, rfl, rfl⟩, rfl, rfl, rfl, rfl, rfl, rfl⟩
+  · exact ⟨Or.inl rfl, rfl, rfl, ⟨rfl, rfl, rfl, rfl⟩, Frame.rfl' s⟩
 
 theorem lescRandom_spec (C : Crypto) (cfg : Cfg) (s : St) (p : Bytes) (hv : cfg.variant ≠ .legacy)
     (hp : p.head? = some 0x04) : InputSpec C cfg s p (lescRandom C cfg s p) := by
@@ -282,24 +290,25 @@ theorem lescRandom_spec (C : Crypto) (cfg : Cfg) (s : St) (p : Bytes) (hv : cfg.
       split
       · rename_i hnc
         have hnc' : s.lescAlgo = .numericComparison := hnc
-        obtain ⟨y1, y2, y3, y4⟩ := requestYesNo_spec cfg { s with st := .lescRandomExchanged, remoteNonce := p.drop 1 }
+        obtain ⟨y1, y2, y3, y5, y4⟩ := requestYesNo_spec cfg { s with st := .lescRandomExchanged, remoteNonce := p.drop 1 }
         split
         · refine .failed _ (fail_failedIdle ..) ?_
           exact ⟨y4.enc, y4.pendEnc, y4.pendCid, y4.pendKey, y4.algo, y4.bonds⟩
         · rename_i hnf
-          refine .lescRandom _ ?_ hp hst' rfl y3 ?_ ⟨y4.enc, y4.pendEnc, y4.pendCid, y4.pendKey, y4.algo, y4.bonds⟩
+          refine .lescRandom _ ?_ hp hst' rfl y3 ?_ ⟨y5.remotePub, y5.localPriv, y5.localPub, y5.localNonce⟩
+            ⟨y4.enc, y4.pendEnc, y4.pendCid, y4.pendKey, y4.algo, y4.bonds⟩
           · rw [hst']
             refine .lescRandom _ _ hv hp hlen' ?_
             rcases y1 with h | ⟨_, h | h | h⟩
             · exact Or.inl h
-            · exact Or.inr (Or.inl h)
-            · exact Or.inr (Or.inr h)
+            · exact Or.inr h
+            · exact Or.inl h
             · exact absurd h hnf
           · intro hne
             rcases y1 with h | ⟨hi, _⟩
             · exact absurd h hne
             · exact ⟨hnc', hi⟩
-      · refine .lescRandom _ ?_ hp hst' rfl rfl ?_ ⟨rfl, rfl, rfl, rfl, rfl, rfl⟩
+      · refine .lescRandom _ ?_ hp hst' rfl rfl ?_ ⟨rfl, rfl, rfl, rfl⟩ ⟨rfl, rfl, rfl, rfl, rfl, rfl⟩
         · rw [hst']
           exact .lescRandom _ _ hv hp hlen' (Or.inl rfl)
         · intro h; exact absurd rfl h
@@ -312,10 +321,13 @@ theorem lescDhkeyCheck_spec (C : Crypto) (cfg : Cfg) (s : St) (p : Bytes) (hv : 
   · rename_i hlen
     have hlen' : p.length = 17 := by simpa using hlen
     split
-    · rename_i hst
-      refine .dhkeyDeferred _ ?_ hp hst rfl rfl
-      rw [hst]; exact .dhkeyDeferred _ hv hp hlen'
     · exact .failed _ (fail_failedIdle ..) (fail_frame ..)
+    · rename_i hst
+      split
+      · exact .failed _ (fail_failedIdle ..) (fail_frame ..)
+      · rename_i hea
+        refine .dhkeyVerified _ ?_ hp hst (by simpa using hea) rfl rfl
+        rw [hst]; exact .dhkeyVerified _ hv hp hlen'
     · rename_i hst
       split
       · exact .failed _ (fail_failedIdle ..) (fail_frame ..)
@@ -371,7 +383,7 @@ theorem l2capInput_spec (C : Crypto) (cfg : Cfg) (s : St) (p : Bytes) :
 inductive OutputSpec (C : Crypto) (cfg : Cfg) (s : St) : HRes → Prop
   | nothing (r : HRes) : r.1 = s → r.2.1 = [] → OutputSpec C cfg s r
   | confirmSent (r : HRes) : cfg.variant ≠ .legacy → s.st = .lescKeysExchanged →
-      r.1.st = .lescConfirmSend → r.2.1.head? = some 0x03 → Frame s r.1 → OutputSpec C cfg s r
+      r.1 = { s with st := .lescConfirmSend } → r.2.1.head? = some 0x03 → OutputSpec C cfg s r
   | dhkeySent (r : HRes) : cfg.variant ≠ .legacy → s.st = .userSuccess → r.1.st = .completed →
       r.2.1 = 0x0d :: lescEb C cfg s → r.1.key = (lescKeys C cfg s).2 →
       r.1.encrypted = s.encrypted → r.1.pendEnc = s.pendEnc → r.1.pendCid = s.pendCid →
@@ -407,7 +419,7 @@ theorem lescOutput_spec (C : Crypto) (cfg : Cfg) (s : St) (hv : cfg.variant ≠ 
   unfold lescOutput
   split
   · rename_i hst
-    exact .confirmSent _ hv hst rfl rfl ⟨rfl, rfl, rfl, rfl, rfl, rfl⟩
+    exact .confirmSent _ hv hst rfl rfl
   · rename_i hst
     exact .dhkeySent _ hv hst rfl rfl rfl rfl rfl rfl rfl rfl
   · rename_i h1 h2
